@@ -37,7 +37,7 @@ def setup_worker():
 
 
 def shards(tier, seed):
-    n = 400 if tier == "quick" else 8000
+    n = 400 if tier == "quick" else 50000
     return [dict(seed=seed * 1000 + i, n=n) for i in range(16)]
 
 
